@@ -22,6 +22,12 @@ claimed={
  "C12":dict(text="Bounded symbolic model checking of call programs: K symbolic steps, each an arbitrary choice among 20 writer operations (fields, elements, nested begin, End/Build on any live or stale handle, Value, Any, Copy, Err, Reset, Free) applied to an arbitrary handle obtained so far, tags/values symbolic; 'a panic is reachable', stickiness and identity of the first error, well-formedness of every successful Build and clean state after Reset are solver-decided assertions on every feasible path.",
   design="§4 C12", technique="SSA symbolic execution + SMT (z3) over symbolic operation sequences; native replay of models",
   note=NOTE_COMMON+" K<=3 full alphabet (thorough 4), K=4 core alphabet (5), six directed prefixes + 2/4 steps (3/5). Outside: longer programs, auto-released writers after release."),
+ "C16":dict(text="Bounded symbolic model checking of the dynamic tag-based API across schema versions: writer version = N fields with symbolic distinct tags/kinds/values in any order; reader version = arbitrary symbolic tags: common fields read back unchanged, tags absent from the data read zero with presence false, unknown written fields disturb nothing; Copy/Merge through a writer that knows a symbolic subset preserves the unknown fields.",
+  design="§4 C16", technique="SSA symbolic execution + SMT (z3), symbolic tag sets for writer and reader versions; native replay of models",
+  note=NOTE_COMMON+" <=2 written fields (thorough 3), 2 reader tags, full-range values. Outside: generated code of two schema versions (compiler pipeline, C05), more fields."),
+ "C18":dict(text="Bounded symbolic model checking of the writer pools: (a) inductive recycling step: a writer state with arbitrary field values goes through the state pool and must equal a fresh state in every observable field; (b) symbolic histories of K operations (new owned / acquire pooled / fail midway / build root / Free) over 3 owners sharing writerPool and writerStatePool: no two live owners ever hold the same writer or state, and each owner's result is intact.",
+  design="§4 C18", technique="SSA symbolic execution + SMT (z3) over symbolic operation histories with a LIFO model of sync.Pool; native replay with the real sync.Pool",
+  note=NOTE_COMMON+" Histories of <=5 operations (thorough 6), 3 owners. Reduced scope: sequential call-order histories only; goroutine hand-off, data races and the race detector are outside; mpx/rpc state pools not covered here."),
 }
 na={p:"check not yet built (work in progress, see DESIGN.md)" for p in props}
 na["C15"]="not applicable to solver-based checking: the parser is a goyacc LALR table interpreter over text/scanner building a pointer-rich tree; with symbolic characters the scanner's rune loops dominate, with symbolic tokens the deciding step would be enumeration, and the oracle would need a second parser (DESIGN.md §4 C15)"
